@@ -180,11 +180,11 @@ def lazy_case(draw):
     "stencil_eigen",
     eigen_case,
     quick=100,
-    thorough=3000,
+    thorough=2000,
     tol="|L[e] - lambda e| <= 1e-5 * ||L||_inf (float32 stencil; observed <= 6e-7); coefficients 1e-14",
     rule="at least one plane wave with (p,q) != (0,0)",
     nontrivial_floor=0.5,
-    max_shrink_calls=40,  # every evaluation compiles a numba stencil (~1 s)
+    max_shrink_calls=12,  # every evaluation compiles a numba stencil (~1 s)
 )
 def check_stencil_eigen(case, ctx):
     import abtem
@@ -274,11 +274,11 @@ def _vacuum_dz(case):
     "vacuum_intensity",
     vacuum_case,
     quick=50,
-    thorough=1500,
+    thorough=1000,
     tol="sum|psi|^2 preserved to 1e-4 relative per wave (observed <= 1e-6)",
     rule=">=2 slices and the wave changed by > 1e-3 of its maximum",
     nontrivial_floor=0.4,
-    max_shrink_calls=30,
+    max_shrink_calls=12,
 )
 def check_vacuum_intensity(case, ctx):
     import abtem
@@ -348,11 +348,11 @@ def _lazy_setup(case):
     "lazy_eager",
     lazy_case,
     quick=36,
-    thorough=1000,
+    thorough=600,
     tol="max|lazy - eager| <= 1e-6 * max|eager| (observed 0)",
     rule=">=2 slices",
     nontrivial_floor=0.4,
-    max_shrink_calls=30,
+    max_shrink_calls=12,
 )
 def check_lazy_eager(case, ctx):
     import abtem
